@@ -319,11 +319,29 @@ Ltac norm ::=
           ?g_osc_dispatch_eq, ?g_params_groups_eq in *;
   unfold intermediates_of, g_params, osc_dispatch_acc in *; setters.
 
+(* the leaf of a case analysis, aware of the arithmetic of the tests that were destructed on the way: the source may
+   spell "the first parameter" as `param_idx == 0`, as the `None` of `param_idx.checked_sub(1)`, as `param_idx < 1`, ..;
+   after `des` every such test is a boolean hypothesis, `bool_props` turns them into propositions over N and the
+   branches that no input reaches are closed by `lia`, the others by `congruence` as before *)
+Ltac bool_props :=
+  repeat match goal with
+  | H : negb _ = true |- _ => apply negb_true_iff in H
+  | H : negb _ = false |- _ => apply negb_false_iff in H
+  | H : (_ =? _) = true |- _ => apply N.eqb_eq in H
+  | H : (_ =? _) = false |- _ => apply N.eqb_neq in H
+  | H : (_ <=? _) = true |- _ => apply N.leb_le in H
+  | H : (_ <=? _) = false |- _ => apply N.leb_gt in H
+  | H : (_ <? _) = true |- _ => apply N.ltb_lt in H
+  | H : (_ <? _) = false |- _ => apply N.ltb_ge in H
+  end.
+Ltac arith_leaf := first [ congruence | reflexivity | bool_props; first [ exfalso; lia | congruence ] ].
+
 Lemma osc_end_eq c p perf b :
   g_perform_action c p perf AOscEnd b = acc perf (perform_action c p AOscEnd b).
 Proof.
-  unfold g_perform_action, perform_action, len. destruct p. setters.
+  unfold g_perform_action, perform_action, len, csub. destruct p. setters. cbv zeta.
   des; setters; try congruence; try reflexivity.
+  all: arith_leaf.
 Qed.
 
 Lemma g_perform_action_eq c p perf a b :
@@ -332,12 +350,13 @@ Proof.
   destruct a; try apply osc_end_eq;
     unfold g_perform_action, g_params;
     rewrite ?g_params_is_full_eq, ?g_params_push_eq, ?g_params_extend_eq, ?g_params_clear_eq, ?g_intermediates_eq, ?g_process_utf8_eq;
-    unfold perform_action, finish_params, osc_full, raw_full, cfg_core, len, intermediates_of;
+    unfold perform_action, finish_params, osc_full, raw_full, cfg_core, len, intermediates_of, csub;
     destruct p; setters; cbn [acc]; rewrite ?app_nil_r; try reflexivity.
   all: des; setters; cbn [acc]; rewrite ?app_nil_r; try congruence; try reflexivity.
   all: unify_eqs; try congruence; try reflexivity.
-  (* ArrayVec::push on a full buffer (a panic) is excluded by the guard at the head of the arm *)
-  all: cbn [andb] in *; congruence.
+  (* ArrayVec::push on a full buffer (a panic) is excluded by the guard at the head of the arm; the tests on
+     `osc_num_params` (whatever their spelling) by their arithmetic *)
+  all: cbn [andb negb] in *; arith_leaf.
 Qed.
 
 Lemma acc_acc {A} perf e1 (r : option (A * list event)) :
